@@ -22,6 +22,9 @@ pub enum ROp {
     Rw(usize),
     Match(&'static str),
     Extract,
+    /// run_eqsat with the AC rules of addition, 3 iterations at most and a time limit of 20 s (never reached: the run
+    /// takes milliseconds); the report is part of the transcript
+    RunEqsat,
 }
 
 pub fn rsets() -> Vec<(&'static str, Vec<(&'static str, &'static str, &'static str)>)> {
@@ -54,6 +57,8 @@ pub fn alphabet() -> Vec<ROp> {
         ROp::Rw(3),
         // a user slot spelled like a fresh slot next to an ordinary named slot
         ROp::Add("(mul (var $f2) (var $x))"),
+        ROp::Add("(add (var $x) (add (var $y) (add (var $z) (add a b))))"),
+        ROp::RunEqsat,
         ROp::Match("(app ?f ?x)"),
         ROp::Match("(add ?a ?b)"),
         ROp::Match("(mul ?a (var $q))"),
@@ -68,6 +73,7 @@ pub fn show(o: &ROp) -> String {
         ROp::Rw(i) => format!("rewrite-iteration {}", rsets()[*i].0),
         ROp::Match(p) => format!("ematch {p}"),
         ROp::Extract => "extract every class".into(),
+        ROp::RunEqsat => "run_eqsat(add-comm, add-assoc; 3 iterations, 20 s)".into(),
     }
 }
 
@@ -263,6 +269,19 @@ fn run_history(ops: &[ROp], sched: &[usize], istrings: &[String], replica: usize
                     kv.sort();
                     println!("   {kv:?}");
                 }
+            }
+            ROp::RunEqsat => {
+                let rules: Vec<Rewrite<Arith>> = vec![Rewrite::new("add-comm", "(add ?a ?b)", "(add ?b ?a)"), Rewrite::new("add-assoc", "(add ?a (add ?b ?c))", "(add (add ?a ?b) ?c)")];
+                // the replica that runs next to noise threads is also slowed down inside the saturation loop (the hook sleeps):
+                // as long as no limit is reached, speed must not show in the transcript
+                let slow = replica == 2;
+                let rep = run_eqsat(&mut eg, rules, 3, 20, move |_| {
+                    if slow {
+                        std::thread::sleep(std::time::Duration::from_millis(25));
+                    }
+                    Ok(())
+                });
+                println!("op{i} run_eqsat -> {:?} after {} iterations, {} nodes, {} classes", rep.stop_reason, rep.iterations, rep.egraph_nodes, rep.egraph_classes);
             }
             ROp::Extract => {
                 for id in eg.ids() {
